@@ -111,8 +111,6 @@ def main(argv: list[str] | None = None) -> int:
 
 
 def finish(prop: str, mod: typing.Any, args: typing.Any, results: list[dict[str, typing.Any]], crashed: list[str], nshards: int, wall: float) -> int:
-    from vf import findings as F
-
     known = load_known()
     evaluations = sum(r["evaluations"] for r in results)
     distinct: set[int] = set()
@@ -154,19 +152,15 @@ def finish(prop: str, mod: typing.Any, args: typing.Any, results: list[dict[str,
         if evaluations == 0:
             inconclusive.append("no case was executed")
 
-    # classify failures
+    # failures were classified inside the shards (so listed findings cannot crowd out new violations)
     known_seen: dict[str, dict[str, typing.Any]] = {}
-    violations: list[dict[str, typing.Any]] = []
-    for f in failures:
-        key = F.classify(prop, f)
-        full = f"{prop}/{key}" if key else None
-        if full and full in known:
-            ks = known_seen.setdefault(full, {"count": 0, "example": f})
-            ks["count"] += 1
-        else:
-            f["classified_as"] = key
-            violations.append(f)
-    unrecorded = failure_count - len(failures)  # failures beyond the per-shard cap were not kept
+    for r in results:
+        for key, ks in r.get("known", {}).items():
+            full = f"{prop}/{key}"
+            agg = known_seen.setdefault(full, {"count": 0, "example": ks["example"]})
+            agg["count"] += ks["count"]
+    violations: list[dict[str, typing.Any]] = list(failures)
+    unrecorded = sum(r.get("dropped_failures", 0) for r in results)
 
     os.makedirs(os.path.join(HERE, "replays"), exist_ok=True)
 
